@@ -336,6 +336,9 @@ func (w *world) failed(id int64) {
 	case 2:
 		w.emit(opT{Code: 10})
 		w.resync = nil
+	case 3:
+		// the API server is unreachable for a while: every GET of the resync fails, the key is re-queued
+		w.emit(opT{Code: 18, A: []int64{vh.Pick(r, []int64{0, 1, 2, 9, 10, 11, 12, 30})}})
 	}
 }
 
@@ -404,6 +407,8 @@ func describe(ops []opT) any {
 			out = append(out, fmt.Sprintf("api-delete t%d (notification later)", o.A[0]))
 		case 17:
 			out = append(out, fmt.Sprintf("job-status-update j%d", o.A[0]))
+		case 18:
+			out = append(out, fmt.Sprintf("%d resync drains with failing GET", o.A[0]))
 		case 15:
 			out = append(out, fmt.Sprintf("prio pc%d value=%d globalDefault=%v", o.Prio.ID, o.Prio.Value, o.Prio.Global))
 		case 16:
@@ -459,6 +464,11 @@ func gen(rng *vh.Rng, n int, emit func(id string, sel int, in []int64, kind stri
 	bs := append([]opT{}, pb...)
 	bs[3] = opT{Code: 11, A: []int64{2, 1, 1}, F: 4}
 	emit("bind-and-status-write-fail", 1, encCase(bs), "fixed", true, describe(bs))
+	// a failed bind, then the API server unreachable for k resync attempts, then recovery
+	for _, k := range []int64{1, 10, 11, 30} {
+		gf := []opT{pb[0], pb[1], pb[2], {Code: 11, A: []int64{2, 1, 1}, F: 0}, {Code: 18, A: []int64{k}}, {Code: 10}, {Code: 9}}
+		emit(fmt.Sprintf("resync-get-fails-%d-times", k), 1, encCase(gf), "fixed", true, describe(gf))
+	}
 	// the identical failure twice: the second status write is a no-op (the pod already carries the condition)
 	nn := []opT{pb[0], pb[1], pb[2], {Code: 11, A: []int64{2, 1, 1}, F: 0},
 		{Code: 1, Pod: cachectl.PodSpec{ID: 1, Job: 2, Phase: 1, Role: 1, CPU: 1000, Mem: 1 << 20, Cond: 1}},
